@@ -2,6 +2,7 @@
 import common as C
 from props._runcommon import RUN_TRUSTED, RUN_ASSUMPTIONS, PropRunStream
 from run import selftest as W
+from run import witnesses2 as W2
 
 PROPERTY = "C08"
 LEAN_MODULES = ["LccModel.Props.C08"]
@@ -25,11 +26,11 @@ def witness(title_prefix):
 
 
 from props._sched import SchedStream, KF_LOST_TASK
-from props._skiptable import skip_table
+from props._skiptable import skip_table, handle_exception_table
 
 
 def tables(ctx):
-    return [skip_table()]
+    return [skip_table(), handle_exception_table()]
 
 
 class Sched(SchedStream):
@@ -61,7 +62,7 @@ class Run(PropRunStream):
     quick_seconds = 55
     p_interrupt = 0.5
     corpus = [witness("D2 AbortSuite raised in setup_test"), witness("D2 AbortSuite raised in teardown_test"),
-              witness("D2 AbortSuite raised in a test-scoped fixture"), witness("(control) AbortSuite"), witness("D11 ")]
+              witness("D2 AbortSuite raised in a test-scoped fixture"), witness("(control) AbortSuite"), witness("D11 ")] + W2.CONTROLS2
 
 
 def streams(ctx):
